@@ -33,7 +33,7 @@ func (e *Engine) sortedPubs() []*pubInfo {
 // the event, the handler's type and the panic value (C05).
 func (e *Engine) CheckPanics() {
 	// the panic handler is either configured from the start or installed at a recorded point of the
-	// program (SetPH); panics of handlers that exited after that point must be reported
+	// program (SetPH); panics of invocations that began after that point must be reported
 	setAt := uint64(0)
 	if !e.P.Cfg.PanicHandler {
 		setAt = ^uint64(0)
@@ -49,8 +49,14 @@ func (e *Engine) CheckPanics() {
 	}
 	for _, pi := range e.sortedPubs() {
 		want := map[string]int{}
+		lastEnter := map[int]uint64{}
 		for _, t := range e.Trace {
-			if t.K == "h.exit" && t.EID == pi.eid && t.Err && t.St > setAt {
+			if t.K == "h.enter" && t.EID == pi.eid {
+				lastEnter[t.Reg] = t.St
+			}
+			// an invocation that began after the panic handler was installed (one that installs it
+			// itself and then panics began before)
+			if t.K == "h.exit" && t.EID == pi.eid && t.Err && lastEnter[t.Reg] > setAt {
 				r := e.reg(t.Reg)
 				ht := e.drv(r.typ).HandlerType(r.spec.Ctx).String()
 				want[ht+"|"+expectPanicDesc(r.spec.PanicKind, r.id, pi.eid)]++
